@@ -160,7 +160,53 @@ fn run_history(ctx: &mut Ctx, ty: &Ty, qi: usize, steps: &[Step], observe_every:
 }
 
 /// directed family shared by C04 and C12 (there with the residual split observed on every history)
+/// products of two powers of two whose exact value is a rounding MIDPOINT of the format in the regimes where the posit
+/// has no fraction (or exponent) bits left -- 2^118 for P32E2 lies exactly between 0x7FFFFFFE and maxpos -- alone and
+/// with dust of either sign at chosen distances: only the dust says which way to round
+fn extreme_midpoint_histories(ctx: &mut Ctx, ty: &Ty, reps: usize, always_split: bool) {
+    let (n, es) = (ty.n, ty.es);
+    let maxs = ((n - 2) << es) as i32;
+    let lsb: i32 = match n { 8 => -12, 16 => -56, _ => -240 };
+    let top = gen::mask(n - 1);
+    for r in 0..reps {
+        // an odd (n+1)-bit pattern next to the largest or smallest magnitudes
+        let p = if r % 2 == 0 { top - (r as u64 / 2) % 6 } else { 1 + (r as u64 / 2) % 6 };
+        let v = gen::to_f64_exact(n + 1, es, (if r % 2 == 0 { 2 * p - 1 } else { 2 * p + 1 }) & gen::mask(n));
+        let bits = v.to_bits();
+        if bits & ((1u64 << 52) - 1) != 0 {
+            continue; // not a power of two: has fraction bits, covered by the ordinary tie histories
+        }
+        let e = ((bits >> 52) & 0x7ff) as i32 - 1023;
+        let s1 = (e / 2).clamp(-maxs, maxs);
+        let s2 = e - s1;
+        if s2.abs() > maxs {
+            continue;
+        }
+        let (a, b) = (gen::from_scale(n, es, s1, 0), gen::from_scale(n, es, s2, 0));
+        let (_, d1, _, f1) = gen::decode(n, es, a);
+        let (_, d2, _, f2) = gen::decode(n, es, b);
+        if d1 != s1 || d2 != s2 || f1 != 0 || f2 != 0 {
+            continue;
+        }
+        let delta = match ctx.rng.gen_range(0..5) { 0 => ctx.rng.gen_range(1..8), 1 => ctx.rng.gen_range(60..70), 2 => ctx.rng.gen_range(120..135), _ => ctx.rng.gen_range(1..(e - lsb).max(2)) };
+        let target = (e - delta).max(lsb);
+        let t1 = (target / 2).clamp(-maxs, maxs);
+        let t2 = target - t1;
+        let neg_all = ctx.rng.gen::<bool>();
+        let sg = |x: u64| if neg_all { gen::neg(n, x) } else { x };
+        let mut steps = vec![Step { op: "q_add", sp: "pp", x: vec![sg(a), b], bs: vec![] }];
+        if t2.abs() <= maxs && r % 3 != 0 {
+            steps.push(Step { op: if ctx.rng.gen::<bool>() { "q_add" } else { "q_sub" }, sp: "pp", x: vec![gen::from_scale(n, es, t1, 0), gen::from_scale(n, es, t2, 0)], bs: vec![] });
+        }
+        ctx.sink.boundary();
+        ctx.sink.free = false;
+        run_history(ctx, ty, 0, &steps, 1, always_split || r % 5 == 0);
+        ctx.sink.free = true;
+    }
+}
+
 fn dust_histories(ctx: &mut Ctx, ty: &Ty, nd2: usize, always_split: bool) {
+    extreme_midpoint_histories(ctx, ty, (nd2 / 6).max(60), always_split);
     // directed: tie + dust with the dust at a CHOSEN distance below the leading bit (every distance from just below
     // the rounding position to 200 positions down, weighted towards 63..65 and 127..129) and the leading bit at a
     // chosen position within its 64-bit limb (weighted towards the top and bottom bit of a limb)
@@ -533,6 +579,39 @@ pub fn spellings(ctx: &mut Ctx) {
                 qcall(ctx, &mut q, 0, ty, "q_from_posit", s, &[a], &[], &[]);
             }
             ctx.sink.free = true;
+        }
+    }
+    // crafted bit images through from_bits (inherent and trait), observed with both spellings of is_nar / is_zero /
+    // to_bits: the NaR image, its neighbours (sign bit plus one low bit, plus one middle bit), all ones, a lone low bit
+    for ty in FIXED {
+        let words: usize = match ty.n { 8 => 1, 16 => 2, _ => 8 };
+        let topbit: u64 = if ty.n == 8 { 1 << 31 } else { 1 << 63 };
+        let full: u64 = if ty.n == 8 { 0xffff_ffff } else { u64::MAX };
+        let mut imgs: Vec<Vec<u64>> = Vec::new();
+        let z = vec![0u64; words];
+        let mut nar = z.clone(); nar[words - 1] = topbit; imgs.push(nar.clone());
+        let mut a = nar.clone(); a[0] |= 1; imgs.push(a);
+        let mut a = nar.clone(); a[words / 2] |= 1 << 7; imgs.push(a);
+        let mut a = nar.clone(); a[words - 1] |= 1; imgs.push(a);
+        imgs.push(vec![full; words]);
+        let mut a = z.clone(); a[0] = 1; imgs.push(a);
+        let mut a = z.clone(); a[words - 1] = topbit >> 1; imgs.push(a);
+        let mut a = vec![full; words]; a[words - 1] = topbit; imgs.push(a);
+        imgs.push(z.clone());
+        for img in &imgs {
+            for sp in ["m", "tr"] {
+                ctx.sink.boundary();
+                ctx.sink.free = false;
+                let mut q = QAny::new(ty.name);
+                qcall(ctx, &mut q, 0, ty, "q_init", "m", &[], &[], &[]);
+                qcall(ctx, &mut q, 0, ty, "q_from_bits", sp, &[], &[], img);
+                for s in ["m", "tr"] {
+                    qcall(ctx, &mut q, 0, ty, "q_is_nar", s, &[], &[], &[]);
+                    qcall(ctx, &mut q, 0, ty, "q_is_zero", s, &[], &[], &[]);
+                    qcall(ctx, &mut q, 0, ty, "q_to_bits", s, &[], &[], &[]);
+                }
+                ctx.sink.free = true;
+            }
         }
     }
     let _ = peek;
